@@ -56,7 +56,7 @@ def shapes(n, depth):
     res = []
     if depth == 0:
         return []
-    for kind in ("P", "S", "Sx", "Ss"):
+    for kind in ("P", "S", "Sx", "Ss", "S0"):
         for parts in compositions(n - 1):
             for ch in itertools.product(*[shapes(k, depth - 1) for k in parts]):
                 if kind == "P":
@@ -65,6 +65,8 @@ def shapes(n, depth):
                     res.append(("S", False, None, list(ch)))
                 elif kind == "Sx":
                     res.append(("S", True, None, list(ch)))
+                elif kind == "S0":
+                    res.append(("S", False, 0, list(ch)))      # 0 is a seed like any other
                 else:
                     res.append(("S", False, 7, list(ch)))
     return res
@@ -91,7 +93,7 @@ def rand_tree(rng, depth, budget):
         return ("M", 16)
     if rng.random() < 0.4:
         return ("P", ch)
-    return ("S", rng.random() < 0.25, rng.choice([None, 3, 11]), ch)
+    return ("S", rng.random() < 0.25, rng.choice([None, 0, 3, 11]), ch)
 
 
 def count_modules(t):
